@@ -7,7 +7,7 @@
    thread, also in a forked child); so is the equality of the abstract %.12g oracle with glibc. *)
 From Coq Require Import List ZArith Lia Bool Arith NArith.
 From Coq.Strings Require Import Byte.
-From Muduo Require Import Base_Bytes Gen_Consts Gen_C17 C17_Model C17_Proofs.
+From Muduo Require Import Base_Bytes Gen_Consts Gen_C17 C17_Model C17_Proofs C17_Units.
 Import ListNotations.
 Local Open Scope Z_scope.
 
@@ -192,53 +192,97 @@ Example ex_gate : macro_emits LOG_DEBUG INFO = false /\ macro_emits LOG_INFO INF
 Proof. vm_compute. repeat split. Qed.
 
 (* ---- formatSI / formatIEC ------------------------------------------------------------------ *)
-(* Full statement (property text): forall n, 0 <= n < 2^63 -> length (formatSI n) <= 5 /\
-   length (formatIEC n) <= 6 /\ rendered value within rounding error of n.
-   formatSI / formatIEC here are exact integer-arithmetic models of the binary64 computation
-   (int64 -> double round-to-nearest-even, IEEE division by the unit, correctly rounded %.kf);
-   the ladders are regenerated from the source.  The model's arithmetic is NOT validated against
-   Flocq: its agreement with the hardware and glibc is established by the correspondence harness
-   only (every rung bound +-3, dense random n), and the label in docs/C17.md says so. *)
+(* formatSI / formatIEC of the model compute the binary64 operations of the code exactly, in Z:
+   int64 -> double (round to nearest even at 53 bits), the IEEE quotient by the unit, printf's
+   correctly rounded %.<p>f -- all through one primitive, [rne] = a rational rounded to the nearest
+   integer, ties to even (C17_Model).  The ladders (tests, precisions, divisors, unit letters) are
+   regenerated from LogStream.cc on every run (Gen_C17), so every statement below is re-proved for
+   the ladder the source has now.  That [rne]-arithmetic IS binary64/glibc arithmetic is not
+   proved here (no Flocq link): it is established by the correspondence run (every rung bound +-3,
+   the neighbours at the spacing of doubles, dense random n against the real functions). *)
 
-(* F-9 (formatSI returned "100.0P", 6 characters, for 99949999999999992..99949999999999999) is
-   fixed in the source (commit af480e4: that rung is now chosen on the double); the regenerated
-   ladder carries the OnDouble test and the former refutation C17_si_width_refuted is replaced by
-   the positive statements below.  If the fix is lost, f9_fixed / si_rung_windows no longer check.
+(* the number printed is monotone in n for a fixed format (rne is monotone on rationals, hence so
+   are the conversion, the quotient and the decimal rounding): the reason why a rung is bounded by
+   its last n *)
+Theorem C17_rendering_monotone : forall p d n1 n2, 0 <= p -> 0 < d -> 0 <= n1 <= n2 ->
+  to_double n1 <= to_double n2 /\ scaled p d n1 <= scaled p d n2 /\
+  (length (render (RFix p d []) n1) <= length (render (RFix p d []) n2))%nat.
+Proof.
+  exact (fun p d n1 n2 Hp Hd Hn =>
+    conj (to_double_mono n1 n2 (proj2 Hn))
+         (conj (scaled_mono p d n1 n2 Hp Hd Hn)
+               (render_len_mono (RFix p d []) n1 n2
+                  (andb_true_intro (conj (proj2 (Z.leb_le 0 p) Hp) (proj2 (Z.ltb_lt 0 d) Hd))) Hn))).
+Qed.
+Print Assumptions C17_rendering_monotone.
 
-   What is proved: (1) the plain rung for ALL n (below 1000 / 1024 the text is the decimal
-   numeral); (2) for EVERY bound of the regenerated ladders, the width for all n within +-1100 of
-   the bound (a window wider than twice the spacing of doubles below 2^63, so it contains both ends
-   of the two adjacent rungs also where the test is made on double(n)), that the rung change does
-   happen inside the window, and n = 0, 2^63-1; (3) the eight F-9 integers print "100P" and their
-   lower neighbour "99.9P".  All computed in the exact integer model of the binary64 arithmetic.
-   MISSING for the full theorem (forall 0 <= n < 2^63): the per-rung monotonicity of the rendered
-   value in n (monotonicity of round-to-nearest through to_double, div_double, fixed_scaled), which
-   reduces the interior of a rung to its two ends, and the validation of these three functions
-   against Flocq's binary64 (until then their agreement with the hardware/glibc is
-   correspondence-only). *)
-Theorem C17_si_width_partial :
-  (forall n, 0 <= n < 1000 -> formatSI n = convert n /\ (length (formatSI n) <= 3)%nat) /\
-  (forallb (window_ok formatSI 5) (rung_bounds si_ladder) = true /\ switches si_ladder si_ladder = true /\
-   (length (formatSI (2 ^ 63 - 1)) <=? 5)%nat = true /\ (length (formatSI 0) <=? 5)%nat = true) /\
-  (forallb (fun n => match formatSI n with [x31; x30; x30; x50] => true | _ => false end) f9_range = true /\
-   formatSI 99949999999999991 = [x39; x39; x2e; x39; x50]).
-Proof. exact (conj formatSI_small (conj si_rung_windows f9_fixed)). Qed.
-Print Assumptions C17_si_width_partial.
+(* property text: "formatSI ... render every n >= 0 in at most 5 ... characters": ALL n of int64 *)
+Theorem C17_si_width : forall n, 0 <= n < 2 ^ 63 -> (length (formatSI n) <= 5)%nat.
+Proof. exact si_width. Qed.
+Print Assumptions C17_si_width.
 
-Theorem C17_iec_width_partial :
-  (forall n, 0 <= n < 1024 -> formatIEC n = convert n /\ (length (formatIEC n) <= 4)%nat) /\
-  forallb (window_ok formatIEC 6) (rung_bounds iec_ladder) = true /\ switches iec_ladder iec_ladder = true /\
-  (length (formatIEC (2 ^ 63 - 1)) <=? 6)%nat = true /\ (length (formatIEC 0) <=? 6)%nat = true.
-Proof. exact (conj formatIEC_small iec_rung_windows). Qed.
-Print Assumptions C17_iec_width_partial.
+(* "... formatIEC ... at most 6 characters" *)
+Theorem C17_iec_width : forall n, 0 <= n < 2 ^ 63 -> (length (formatIEC n) <= 6)%nat.
+Proof. exact iec_width. Qed.
+Print Assumptions C17_iec_width.
 
-(* how a window statement is used: any n within 1100 of a regenerated bound *)
-Theorem C17_window_use : forall f w c n, window_ok f w c = true ->
-  0 <= n < 2 ^ 63 -> c - 1100 <= n <= c + 1100 -> (length (f n) <= w)%nat.
-Proof. exact window_ok_use. Qed.
-Print Assumptions C17_window_use.
+(* what was computed to get there: for every rung of the regenerated ladders a last n exists
+   (found by search for the tests made on double(n)), the format is well formed, and the text at
+   that n has at most 5 / 6 characters; each ladder ends with an else *)
+Theorem C17_ladders_covered :
+  (forallb (rung_ok 5) si_ladder = true /\ existsb is_else si_ladder = true) /\
+  (forallb (rung_ok 6) iec_ladder = true /\ existsb is_else iec_ladder = true).
+Proof. exact (conj si_ladder_ok iec_ladder_ok). Qed.
+Print Assumptions C17_ladders_covered.
 
+(* "within rounding error of n": on the plain rung the text is the decimal numeral of n; on every
+   other rung it is <canonical integer part>[.<p digits>]<unit> denoting k / 10^p units of d with
+   |k * d - n * 10^p| <= d / 2 + 3 * 2^-53 * n * 10^p, i.e. half a unit of the last printed digit
+   plus the effect (relative 3 * 2^-53) of the two binary64 roundings before printf's *)
+Theorem C17_units_accurate : forall n, 0 <= n < 2 ^ 63 ->
+  rendered_ok (select n si_ladder) (formatSI n) n /\ rendered_ok (select n iec_ladder) (formatIEC n) n.
+Proof. exact (fun n Hn => conj (si_accurate n Hn) (iec_accurate n Hn)). Qed.
+Print Assumptions C17_units_accurate.
+
+(* the unit letters of the ladders name their divisors: k M G T P E = 10^3..10^18, Ki..Ei = 2^10..2^60 *)
+Theorem C17_units_named :
+  units_in unit_table_si si_ladder = true /\ units_in unit_table_iec iec_ladder = true.
+Proof. exact units_named. Qed.
+Print Assumptions C17_units_named.
+
+(* half a unit of the last digit ALONE does not hold (so the second term above is needed): *)
+Theorem C17_half_unit_alone_refuted :
+  select 9145000000000001 si_ladder = RFix 2 (10 ^ 15) [x50] /\
+  formatSI 9145000000000001 = [x39; x2e; x31; x34; x50] /\
+  10 ^ 15 < 2 * Z.abs (914 * 10 ^ 15 - 9145000000000001 * 10 ^ 2).
+Proof. exact half_unit_alone_refuted. Qed.
+Print Assumptions C17_half_unit_alone_refuted.
+
+(* F-9 regression facts.  F-9: formatSI returned "100.0P" (6 characters) for
+   99949999999999992..99949999999999999; fixed in the source by commit af480e4 (that rung is now
+   chosen on the double).  (1) For the ladder as it was before the fix -- the regenerated ladder
+   with every test made on the integer -- the eight integers still print "100.0P": the width
+   theorem is false for that ladder, so if the fix is lost (si_ladder then IS that ladder)
+   C17_si_width / C17_ladders_covered no longer check.  (2) With the regenerated ladder they print
+   "100P", their lower neighbour "99.9P". *)
+Theorem C17_si_width_prefix_ladder_refuted :
+  forallb (fun n => match render (select n (map on_int si_ladder)) n with
+                    | [x31; x30; x30; x2e; x30; x50] => true | _ => false end) f9_range = true.
+Proof. exact si_on_int_refuted. Qed.
+Print Assumptions C17_si_width_prefix_ladder_refuted.
+
+Theorem C17_f9_fixed :
+  forallb (fun n => match formatSI n with [x31; x30; x30; x50] => true | _ => false end) f9_range = true /\
+  formatSI 99949999999999991 = [x39; x39; x2e; x39; x50].
+Proof. exact f9_fixed. Qed.
+Print Assumptions C17_f9_fixed.
+
+(* non-vacuity: the widths are attained, the ladders have the expected number of rungs, a test
+   made on the double has its last n found by the search *)
 Example ex_si : formatSI 12345 = [x31; x32; x2e; x33; x6b] /\ formatIEC 1048064 = [x31; x2e; x30; x30; x4d; x69] /\
-                length (rung_bounds si_ladder) = 16%nat /\ length (rung_bounds iec_ladder) = 17%nat /\
-                length window = 2201%nat.
+                length (formatSI 1000) = 5%nat /\ length (formatIEC 1024) = 6%nat /\
+                length si_ladder = 17%nat /\ length iec_ladder = 18%nat /\
+                rung_last (OnDouble 99950000000000000 1) = Some 99949999999999991 /\
+                f9_range = [99949999999999992; 99949999999999993; 99949999999999994; 99949999999999995;
+                            99949999999999996; 99949999999999997; 99949999999999998; 99949999999999999].
 Proof. vm_compute. repeat split. Qed.
